@@ -455,6 +455,12 @@ func ruleBTWidth(c *Ctx, full bool) {
 		}
 		sort.Strings(names)
 		for _, name := range names {
+			if c.Extra == nil || c.Extra["builder_dispatch_table"] == nil {
+				c.Table("builder_dispatch_table", map[string]string{})
+			}
+			c.Extra["builder_dispatch_table"].(map[string]string)[fnKey(b.Fn)+" -> "+name] = rows[name].String()
+		}
+		for _, name := range names {
 			ct := e.byType[name]
 			key := fmt.Sprintf("%s/return[%s]", fnKey(b.Fn), name)
 			pos := P.pos(rowPaths[name][0].Ret.Pos())
@@ -588,8 +594,13 @@ func sliceElemsBuiltFrom(P *Program, lit ssa.Value, fld string, typ *ssa.Paramet
 			continue
 		}
 		for _, rr := range referrersOf(fa) {
-			ld, ok := rr.(*ssa.UnOp)
-			if !ok {
+			var ld ssa.Value
+			if u, ok := rr.(*ssa.UnOp); ok {
+				ld = u
+			} else if st, ok := rr.(*ssa.Store); ok && st.Addr == ssa.Value(fa) {
+				// the slice is filled through a local before being put in the field
+				ld = st.Val
+			} else {
 				continue
 			}
 			for _, r3 := range referrersOf(ld) {
